@@ -1,6 +1,7 @@
 package main
 
 import (
+	"go/types"
 	"regexp"
 	"strconv"
 	"strings"
@@ -38,4 +39,28 @@ func simplifyRef(r string) string {
 		}
 	}
 	return r
+}
+
+// refFact: a reference read from the heap points to an allocated object, i.e. lies
+// below the current allocation frontier (every stored reference was below the
+// frontier when it was stored, and the frontier only grows).
+func (x *Exec) refFact(t Term, ty types.Type) {
+	if t == "" || x.discovering {
+		return
+	}
+	a := x.getSV("alloc", "Int")
+	switch ty.Underlying().(type) {
+	case *types.Pointer:
+		if x.smt.sortOf(ty) == "Slice" {
+			x.smt.assume(implies(x.reach, "(and (>= (sref "+t+") 0) (< (sref "+t+") "+a+"))"))
+		} else {
+			x.smt.assume(implies(x.reach, "(and (>= "+t+" 0) (< "+t+" "+a+"))"))
+		}
+	case *types.Map, *types.Chan:
+		x.smt.assume(implies(x.reach, "(and (>= "+t+" 0) (< "+t+" "+a+"))"))
+	case *types.Slice:
+		if !isByteSlice(ty) {
+			x.smt.assume(implies(x.reach, "(and (>= (sref "+t+") 0) (< (sref "+t+") "+a+"))"))
+		}
+	}
 }
